@@ -50,6 +50,10 @@ func caseGCRoll(res *caseResult, idx int, dir string, seed int64, tier string) {
 		put := func() bool {
 			seq := q.AppendedSeq() + 1
 			msg := payload(900+round, int(seq%1000000), 24+r.Intn(200))
+			if round%3 == 1 && seq%2 == 0 {
+				msg = []byte{} // empty messages around the index page boundary (expected by sequence)
+				s.count("empty.empty_messages_appended", 1)
+			}
 			if err := q.Put(msg); err != nil {
 				s.violate("C05/put-fails", "round %d: Put of sequence %d: %v", round, seq, err)
 				return false
@@ -149,9 +153,15 @@ func caseBackReset(res *caseResult, idx int, dir string, seed int64, tier string
 	q.SetAppendedSeq(target)
 	s.count("backreset.resets_across_an_index_page_boundary", 1)
 	expect := map[int64][]byte{}
-	put := func(q queue.Queue) {
+	put := func(q queue.Queue, empty bool) {
 		seq := q.AppendedSeq() + 1
 		msg := payload(800+idx, int(seq%1000000), 30+r.Intn(300))
+		if empty {
+			// an empty message over the index entry of a message of the first life (expected by sequence)
+			msg = []byte{}
+			s.count("empty.empty_messages_appended", 1)
+			s.count("backreset.empty_messages_appended_over_an_old_index_entry", 1)
+		}
 		if err := q.Put(msg); err != nil {
 			s.violate("C05/put-fails", "Put of sequence %d after the reset: %v", seq, err)
 			return
@@ -182,7 +192,7 @@ func caseBackReset(res *caseResult, idx int, dir string, seed int64, tier string
 	}
 	n := 3 + r.Intn(int(back)+20) // may cross the boundary forwards again
 	for i := 0; i < n; i++ {
-		put(q)
+		put(q, i%4 == 1 || (i == n-1 && idx%2 == 1)) // idx odd: the last message before the reopen is empty
 	}
 	check(q, "same process")
 	q.Close()
@@ -193,7 +203,7 @@ func caseBackReset(res *caseResult, idx int, dir string, seed int64, tier string
 	}
 	check(q2, "after reopen")
 	for i := 0; i < 3; i++ {
-		put(q2)
+		put(q2, false)
 	}
 	check(q2, "after reopen and more appends")
 	q2.Close()
